@@ -1,5 +1,6 @@
 (* Extraction of the build-history model (Build.v).  ExtrOcamlBasic only. *)
 From Coq Require Import ExtrOcamlBasic.
-From Grog Require Import Str Label HashKey Build.
+From Grog Require Import Str Label HashKey Build Build_ideal Build_keyfaith.
 Extraction Language OCaml.
-Extraction "model.ml" Build.run_history Build.clean_build Build.build Build.selection Build.sys0.
+Extraction "model.ml" Build.run_history Build.clean_build Build.build Build.selection Build.sys0
+  Build_ideal.snaps Build_keyfaith.snaps_okb.
